@@ -26,8 +26,8 @@ Theorems
   graph and reject together, always with class `DeadInputError`.  The *named port may differ* (see
   `ex_deadInput_names_differ`); in both cases it is an original input port that is a dead end (a member of
   `new_out_ports`) of the graph at the start of the round in which the loop stops (`OrderIndep.stopGraph`, the same
-  graph for both runs).  In the literal loop the port is moreover still a sink when it is met: removing other sinks
-  never gives a unit a successor.
+  graph for both runs).  `C20_literal_loop_named_port`: in the literal loop the port is the first original input port
+  in the round's iteration order and is still a sink of the partly pruned graph it is met in.
 * `C20_load_order_independent` — hence `loadP ord fold d` and `Loader.load fold d` accept together with the same
   processor and reject together with the same error class.
 * `icaseSet_fold_nodup`, `C20_isa_order_independent`, `C20_isa_abilities_order_independent` — `load_isa` returns the
@@ -88,6 +88,18 @@ theorem C20_terminals_order_independent (ord : List N → List N) (hord : ∀ l,
     · exact ⟨fun _ => ⟨_, rfl⟩, fun _ => ⟨_, rfl⟩⟩
     · intro e he; cases he; exact ⟨rfl, p, rfl, hd p hp⟩
     · intro e he; cases he; exact ⟨rfl, p', rfl, hd p' hp'⟩
+
+/-- the port the literal loop names, precisely: in the round that starts with `sg = stopGraph in0 out0 fuel g` the
+set `deadEnds out0 sg` is visited in the order `ord …`; the units `pre` visited first are no input ports and have
+been removed one by one, and the named port `p` is the first original input port met — still a sink of the graph
+it is met in (`sg` without `pre`). -/
+theorem C20_literal_loop_named_port (ord : List N → List N) (hord : ∀ l, (ord l).Perm l)
+    (in0 out0 : List N) (fuel : Nat) (g : Graph N) (e : LoadError N)
+    (h : chkTerminalsP ord in0 out0 fuel g = .error e) :
+    ∃ p pre post, e = .deadInput p ∧ ord (deadEnds out0 (stopGraph in0 out0 fuel g)) = pre ++ p :: post ∧
+      p ∈ in0 ∧ (∀ q ∈ pre, q ∉ in0) ∧ p ∈ ((stopGraph in0 out0 fuel g).removeNodes pre).outPorts :=
+  rmDeadEnds_error (chkTerminalsP_error_round hord in0 out0 fuel g e h)
+    (fun _ hq => (List.mem_filter.1 ((hord _).mem_iff.1 hq)).1)
 
 /-- the sequential-removal fact behind it: removing the nodes of a list one by one (in any order) is removing them
 all at once -/
